@@ -15,4 +15,22 @@ var plans = map[string]plan{
 		Rule: "outer case = generated subject package (14 argument types over the supported grammar, with equal / curried / 5 context wrappers each); inner cases = value pairs (independent, rebuilt at fresh addresses with permuted maps and different capacity, or exactly one leaf / nil-ness / length / key mutation) plus a third value for transitivity, judged against the reflection-based structural reference; non-trivial = rebuild or single-mutation pair whose value holds a non-nil pointer/slice/map; distinct by (type, encoding of a, encoding of b)",
 		Assumptions: []string{"vref.Eq is the statement of C02 (self-tested: equivalence, agrees with canonical encoding)", "user Equal methods generated for the subject are equivalence relations"},
 	},
+	"C03": {
+		Quick:    tierPlan{Shards: 8, Checks: 1, Shrink: "45s", Limit: 20 * time.Minute},
+		Thorough: tierPlan{Shards: 16, Checks: 8, Shrink: "3m", Limit: 3 * time.Hour},
+		Rule: "outer case = generated subject package (14 types with compare / curried compare / equal); inner case = a pool of 4-6 values (a, rebuild of a, a chain of single mutations, an independent value): every ordered pair is one evaluation (range, antisymmetry, ==0 iff derived Equal iff structural equality, curried form) and every triple is checked for transitivity; direction asserted for single leaf / nil-ness mutations that Equal distinguishes; non-trivial = Compare==0 pair at distinct addresses, or a direction pair whose difference lies below the root; distinct by (type, encodings)",
+		Assumptions: []string{"vref reference (self-tested)", "no user Compare/Equal methods in C03 subjects (the statement does not speak about them)"},
+	},
+	"C04": {
+		Quick:    tierPlan{Shards: 8, Checks: 1, Shrink: "45s", Limit: 20 * time.Minute},
+		Thorough: tierPlan{Shards: 16, Checks: 8, Shrink: "3m", Limit: 3 * time.Hour},
+		Rule: "outer case = generated subject package (14 types with hash and equal); inner case = a pair that is Equal by construction (rebuilt at fresh addresses with permuted map insertion, different capacity, un-shared pointers; or additionally +0/-0 rewritten) on which derived Equal and the structural reference agree; judged: same hash, repeatable, argument snapshot unchanged, and the same values re-hashed in a second process; non-trivial = the two members differ in capacity / sharing / zero sign or hold a map with >= 2 entries; distinct by (type, snapshots)",
+		Assumptions: []string{"vref reference (self-tested)", "the second process regenerates the same values from the same rapid seed (only values present in both runs are compared)"},
+	},
+	"C05": {
+		Quick:    tierPlan{Shards: 8, Checks: 1, Shrink: "45s", Limit: 20 * time.Minute},
+		Thorough: tierPlan{Shards: 16, Checks: 8, Shrink: "3m", Limit: 3 * time.Hour},
+		Rule: "outer case = generated subject package (14 types, most wrapped in a top-level pointer/slice/map, with clone and deepcopy); inner case = source value (nil/empty/shared substructure) and an independently drawn tree-shaped prior destination (pointer to arbitrary contents / slice of equal length / empty map); judged: structural equality, source snapshot unchanged, allocation sets disjoint, scribbling one side leaves the other's snapshot unchanged; non-trivial = source reaches a non-nil pointer/slice/map below the root and the prior destination differs from it; distinct by (type, source snapshot, prior destination snapshot)",
+		Assumptions: []string{"vref reference, Addrs and Scribble (self-tested)", "string bytes and zero-size allocations are not counted as shared memory"},
+	},
 }
